@@ -16,7 +16,10 @@ type RoundOpts struct {
 	ExportModule string // default TokenGameExport
 	TraceModule  string // default TokenGameTrace
 	MaxSteps     int
-	MaxPerProg   int // cap on schedules per program (seeded sample), 0 = all
+	MaxPerProg   int      // cap on schedules per program (seeded sample), 0 = all
+	Features     []string // export features: err again conc wait concwait
+	MaxRetry     int
+	MaxWaits     int
 	Simulate     int // > 0: TLC random simulation with that many behaviours instead of exhaustive enumeration
 	Job          JobOpts
 	Invariants   []string
@@ -50,6 +53,15 @@ func (c *Ctx) TokenGameRound(fs []Finding, ps []*prog.Program, o RoundOpts) erro
 	if o.Invariants == nil {
 		o.Invariants = []string{"XNoDeadToken", "XCeaseIffDone", "XReqOnce"}
 	}
+	feat := "{"
+	for i, f := range o.Features {
+		if i > 0 {
+			feat += ", "
+		}
+		feat += fmt.Sprintf("%q", f)
+	}
+	feat += "}"
+	o.ExtraCfg += fmt.Sprintf("\n  Features = %s\n  MaxRetry = %d\n  MaxWaits = %d\n", feat, o.MaxRetry, o.MaxWaits)
 	scheds, _, err := c.ExportSchedules(o.ExportModule, ps, o.MaxSteps, o.ExtraCfg, o.Invariants, o.Simulate)
 	if err != nil {
 		return fmt.Errorf("%s export: %w", o.Label, err)
